@@ -200,7 +200,8 @@ impl Page {
                     };
                     let first = text.lines().next().unwrap_or("");
                     let kind = crate::cli::error_kind_of_text(first);
-                    self.shown.push(json!({"t": "error", "text": [], "line": digits_after_in(first), "what": kind}));
+                    let caret: Vec<&str> = text.lines().skip(1).collect();
+                    self.shown.push(json!({"t": "error", "text": bytes(&caret.join("\n")), "line": digits_after_in(first), "what": kind}));
                     fuel -= 1;
                     if fuel == 0 {
                         return;
@@ -326,7 +327,7 @@ pub fn replay_rows(tlc_out: &str, facts: Facts, rep: &mut Report) {
         let p = &row["pred"];
         let shown_ok = p["shown"].as_array().map(|a| a.len()) == d["shown"].as_array().map(|a| a.len())
             && p["shown"].as_array().unwrap().iter().zip(d["shown"].as_array().unwrap()).all(|(m, r)| {
-                m["t"] == r["t"] && m["line"] == r["line"] && (m["t"] != "print" || m["unk"] == true || m["text"] == r["text"])
+                m["t"] == r["t"] && m["line"] == r["line"] && (!(m["t"] == "print" || m["t"] == "error") || m["unk"] == true || m["text"] == r["text"])
                     && (!(m["t"] == "error" || m["t"] == "warning") || m["what"] == r["what"])
             });
         if !shown_ok || p["state"] != d["state"] || p["timers"] != d["timers"] || p["input_on"] != d["input_on"] {
@@ -349,7 +350,8 @@ pub fn record(seed: u64, n: usize, facts: Facts, out: &str, rep: &mut Report) {
         "10 I=I+1\n20 GOTO 10", "", "REM x\n\n10 STOP:PRINT \"S\"", "10 FOR I=1 TO 3:PRINT I:NEXT I\n20 INPUT B$\n30 PRINT B$;B$",
         "10 GOSUB 100\n20 END\n100 PRINT \"é\":RETURN", "10 PRINT \"unterminated\n20 PRINT 2", "5 DIM A(2)\n10 A(3)=1",
     ];
-    const TEXTS: &[&str] = &["NEW", "RUN", "CONT", "15 PRINT 7", "PRINT 1/0", "5", "abc", "\"", "PRINT 2:PRINT 3", "LIST", "TRACE", "10", "X=1:STOP:PRINT X", "1,2", "GOTO 10", "INPUT Q"];
+    const TEXTS: &[&str] = &["NEW", "RUN", "CONT", "15 PRINT 7", "PRINT 1/0", "5", "abc", "\"", "PRINT 2:PRINT 3", "LIST", "TRACE", "10", "X=1:STOP:PRINT X", "1,2", "GOTO 10", "INPUT Q",
+                             "  \"", " X = 1..2", "   PRINT 1 ~ 2", "\tPRINT \"a", "  10 PRINT ~", "  PRINT 1/0", " 20 PRINT \"é\" ~"];
     let mut f = std::io::BufWriter::new(std::fs::File::create(out).expect("create trace"));
     for i in 0..n as u64 {
         let mut rng = StdRng::seed_from_u64(seed ^ (i << 18) ^ 0xC19);
